@@ -726,7 +726,9 @@ func (fc *FuncCtx) havocTarget(env *Env, target Expr, st *State, base string) {
 			sl := v.G.Underlying().(*types.Slice)
 			h := eng.elemHeap(sl.Elem())
 			fresh := fc.q.fresh(fc.pfx+base, "(Array Int "+eng.sorts.sortOf(sl.Elem())+")")
-			st.set(h, fmt.Sprintf("(store %s (s-arr %s) %s)", st.get(h), v.T, fresh))
+			hOld := st.get(h)
+			st.set(h, fmt.Sprintf("(store %s (s-arr %s) %s)", hOld, v.T, fresh))
+			fc.elemFrame(h, hOld, st.get(h), "(s-arr "+v.T+")")
 			return
 		case "allof":
 			// allof("F.S_x.f"): the whole heap
